@@ -240,7 +240,12 @@ func (cx *Ctx) c01Minimise(job *spec.Job, j int, key string) {
 		budget = 90 * time.Second
 	}
 	// simplest resolution first: does it fail under the identity order and clock 0 too?
-	for _, simple := range []spec.Resolution{{Adv: "identity"}, {Adv: "identity", T0: res.T0}, {Adv: "reverse"}} {
+	// (not for hangs: every evaluation of a hang costs its whole budget)
+	simple := []spec.Resolution{{Adv: "identity"}, {Adv: "identity", T0: res.T0}, {Adv: "reverse"}}
+	if budget > 100*time.Second {
+		simple = nil
+	}
+	for _, simple := range simple {
 		if ok, _ := cx.c01Fails(c, simple, key); ok {
 			res = simple
 			break
